@@ -340,6 +340,7 @@ func runC16(c *Ctx) {
 
 	checkNameReplyComplete(c, "R7")
 	checkMemFSNameIndex(c, "R8")
+	checkMemFSListsByResolvedName(c, "R11")
 	// R10: the client ends a listing on a STATUS only when that STATUS is a failure or EOF (shared with C20.Z6): an
 	// SSH_FX_OK answer to READDIR read as success ends the listing early with a nil error
 	c.withRule("R10", func() { checkStatusCaseNextToDataCase(c, "Z6") })
@@ -1242,4 +1243,56 @@ func checkListingCursor(c *Ctx) {
 		c.check(good, "R1", "write of lsoffset in "+fnName(a.Fn), pos(a.In), "only lsInc advances the cursor, by its argument", "the listing cursor is modified outside lsInc or not by += argument")
 	}
 
+}
+
+// checkMemFSListsByResolvedName (C16.R11): the in-memory backend finds the entries of a directory by comparing
+// path.Dir(key) with the directory's name.  The directory was reached through fetch, which follows symbolic links, so
+// the name to compare with is the name field of the object fetch returned — not the name the client asked for: listing
+// "/current" where that is a link to "/data" must list the children of "/data".
+func checkMemFSListsByResolvedName(c *Ctx, rule string) {
+	p := c.P
+	rd := p.Func("(*root).readdir")
+	if rd == nil {
+		c.missing(rule, "(*root).readdir")
+		return
+	}
+	c.looked(fnName(rd))
+	n := 0
+	eachInstr(rd, func(in ssa.Instruction) {
+		bo, ok := in.(*ssa.BinOp)
+		if !ok || (bo.Op != token.EQL && bo.Op != token.NEQ) {
+			return
+		}
+		isDirOfKey := func(v ssa.Value) bool {
+			call, ok := v.(*ssa.Call)
+			return ok && callIs(&call.Call, "path.Dir")
+		}
+		var other ssa.Value
+		switch {
+		case isDirOfKey(bo.X):
+			other = bo.Y
+		case isDirOfKey(bo.Y):
+			other = bo.X
+		default:
+			return
+		}
+		n++
+		good := true
+		what := ""
+		for _, l := range leavesOf(other) {
+			if l.Kind == leafFieldLoad && l.Field == "name" && typeName(l.Base.Type()) == "memFile" {
+				continue
+			}
+			good = false
+			switch l.Kind {
+			case leafParam:
+				what = "the parameter " + l.Param.Name()
+			default:
+				what = "something other than the fetched directory's name"
+			}
+		}
+		c.check(good, rule, "readdir selects children by the fetched directory's own name", p.Pos(in.Pos()), "path.Dir(key) == dir.name",
+			"the children are selected by "+what+": a directory listed through a symbolic link (or by a non-canonical name) comes back empty although it has entries")
+	})
+	c.check(n >= 1, rule, "readdir compares path.Dir(key)", p.Pos(rd.Pos()), fmt.Sprintf("%d comparisons", n), "readdir no longer selects the children by path.Dir(key)")
 }
